@@ -2,12 +2,14 @@
     Only statements; every proof is [exact <lemma>].
 
     Model: Changelog/Model.v ([parse_changelog], [format_changelog], [apply_ops] -- the
-    functions Changelog/Check.v [agree] runs); proofs: Changelog/ParseProofs.v,
-    Changelog/NormalProofs.v.  The thirteen "junk" classifiers (emacs / vim mode lines, cvs
+    functions Changelog/Check.v [agree] runs); domains of edited values: Changelog/Spec.v and
+    Changelog/EditSpec.v [op_dom] (what [holds] uses); proofs: Changelog/ParseProofs.v,
+    NormalBase.v, NormalHeader.v, NormalProofs.v, BuiltProofs.v.  The thirteen "junk" classifiers (emacs / vim mode lines, cvs
     keywords, comments, old_format_re1..8) are the record [J]: every theorem holds for
     EVERY instance of them. *)
 From Coq Require Import String.
-From Verif Require Import Lib.Base Lib.Dec Lib.PyStr Changelog.Model Changelog.ParseProofs.
+From Verif Require Import Lib.Base Lib.Dec Lib.PyStr Changelog.Model Changelog.Spec Changelog.EditSpec
+  Changelog.ParseProofs Changelog.NormalProofs Changelog.BuiltProofs.
 
 (** 1. lenient_total.  For every input (a str, any list of lines, a file), every
        allow_empty_author, every max_blocks, the lenient constructor returns.  Rests on
@@ -36,6 +38,77 @@ Theorem C15_strict_raises_iff_lenient_warns :
   /\ (parse_changelog J true allow maxb inp = Ok st <-> p_warn st = []).
 Proof. exact strict_raises_iff_lenient_warns. Qed.
 
+(** 3. format_normal_form, parsed changelogs.  For EVERY text [s] (no well-formedness
+       assumed: junk, missing trailers, mode lines, old-format markers, repeated keys, ...),
+       every allow_empty_author and every instance of the junk classifiers: if str() of the
+       leniently parsed object succeeds and gives [t], then parsing [t] (same options)
+       succeeds and yields the same object -- the same initial lines and the same blocks, in
+       every attribute (package, version, distributions, urgency, comment, pairs, changes,
+       author, date, trailing lines, trailer separator) -- and therefore formats to the
+       identical text [t] again.  ([cl_of]: initial_blank_lines and _blocks of the object.) *)
+Theorem C15_format_normal_form_parsed :
+  forall J allow s st t,
+  parse_changelog J false allow None (InStr s) = Ok st ->
+  format_changelog false (cl_of st) = Ok t ->
+  exists st', parse_changelog J false allow None (InStr t) = Ok st'
+              /\ cl_of st' = cl_of st
+              /\ format_changelog false (cl_of st') = Ok t.
+Proof. exact format_normal_form_parsed. Qed.
+
+(** 4. format_normal_form, programmatically built changelogs.  Starting from the empty
+       Changelog(), after ANY sequence of editing calls -- new_block with any subset of its
+       arguments, add_change, assignment to package / version / distributions / urgency /
+       author / date -- whose values lie in their documented domains ([op_dom]: package,
+       version, distribution list, urgency and key=value pairs of the deb-changelog grammar,
+       one-line change text that is blank or starts with two spaces, author "name <mail>",
+       RFC-2822 shaped date): if the object can be formatted, the text parses (any
+       allow_empty_author) to exactly the object that was formatted, formats to the identical
+       text again, and -- unless the object has no block -- does so without any warning. *)
+Theorem C15_format_normal_form_built :
+  forall J allow ops c t,
+  forallb op_dom ops = true ->
+  apply_ops empty_changelog ops = Ok c ->
+  format_changelog false c = Ok t ->
+  exists st', parse_changelog J false allow None (InStr t) = Ok st'
+              /\ cl_of st' = c
+              /\ format_changelog false (cl_of st') = Ok t
+              /\ (cl_blocks c <> [] -> p_warn st' = []).
+Proof. exact normal_form_built. Qed.
+
+(** format_normal_form as DESIGN section 4 (C15) states it -- FULL STATEMENT, of which
+    theorems 3 and 4 are the proved part:
+
+      forall J allow s st ops c t,
+        parse_changelog J false allow None (InStr s) = Ok st   (or st = the empty object) ->
+        forallb op_dom ops = true -> apply_ops (cl_of st) ops = Ok c ->
+        format_changelog false c = Ok t ->
+        exists st', parse_changelog J false allow None (InStr t) = Ok st'
+                    /\ the seven attributes of cl_blocks (cl_of st') and of cl_blocks c agree
+                    /\ format_changelog false (cl_of st') = Ok t.
+
+    Proved: ops = [] on any parsed object (theorem 3), and any in-domain ops on the empty
+    object (theorem 4).  MISSING: in-domain editing calls applied to a PARSED object (a
+    new block put in front of parsed blocks, or the first parsed block modified); this needs
+    the per-block (rather than whole-run) form of the replay invariant of NormalProofs.v.
+    It is exercised only by the correspondence check (CEdit cases with a parsed start). *)
+Theorem C15_format_normal_form_partial :
+  (forall J allow s st t,
+     parse_changelog J false allow None (InStr s) = Ok st ->
+     format_changelog false (cl_of st) = Ok t ->
+     exists st', parse_changelog J false allow None (InStr t) = Ok st'
+                 /\ cl_of st' = cl_of st /\ format_changelog false (cl_of st') = Ok t)
+  /\
+  (forall J allow ops c t,
+     forallb op_dom ops = true -> apply_ops empty_changelog ops = Ok c ->
+     format_changelog false c = Ok t ->
+     exists st', parse_changelog J false allow None (InStr t) = Ok st'
+                 /\ cl_of st' = c /\ format_changelog false (cl_of st') = Ok t).
+Proof.
+  split; [exact format_normal_form_parsed|].
+  intros J allow ops c t H1 H2 H3. destruct (normal_form_built J allow ops c t H1 H2 H3) as (st' & A & B & C & _).
+  exists st'. auto.
+Qed.
+
 (** Non-vacuity: with no junk classifier firing, a text whose trailer has a single
     space before the date parses leniently to one block with one warning and is refused
     by strict parsing; the two-space text parses identically in both modes. *)
@@ -51,11 +124,57 @@ Example C15_nonvacuous :
               /\ List.length (p_blocks st) = 1%nat /\ p_warn st = [])
   /\ parse_changelog no_junk true false None (InStr bad) = Err ParseError
   /\ (exists st, parse_changelog no_junk false false None (InStr bad) = Ok st
-                 /\ List.length (p_blocks st) = 1%nat /\ p_warn st = [WBadTrailer]).
+                 /\ List.length (p_blocks st) = 1%nat /\ p_warn st = [WBadTrailer]
+                 /\ format_changelog false (cl_of st) = Ok bad).
 Proof.
   vm_compute. split; [|split]; [eexists; repeat split|reflexivity|eexists; repeat split].
 Qed.
 
+(** a text with a repeated key, an urgency comment, a ';' inside the version, junk before
+    the first heading and a missing trailer parses with warnings; its str() is NOT the input
+    (the heading is normalised) but is a fixed point, as theorem 3 says *)
+Example C15_normal_form_nonvacuous :
+  let s := dec "junk\00000ap (1;2) a  b; x,urgency=low (c) , K=1, k=2\00000a  * x\00000a" in
+  match parse_changelog no_junk false false None (InStr s) with
+  | Ok st =>
+      match format_changelog false (cl_of st) with
+      | Ok t =>
+          List.length (p_warn st) = 4%nat /\ str_eqb t s = false
+          /\ match parse_changelog no_junk false false None (InStr t) with
+             | Ok st' => cl_of st' = cl_of st
+             | Err _ => False
+             end
+      | Err _ => False
+      end
+  | Err _ => False
+  end.
+Proof. vm_compute. repeat split. Qed.
+
+(** an editing script in the documented domains: a full new_block, an added change, a new
+    version -- formats, and the text parses back to the object without a warning *)
+Example C15_built_nonvacuous :
+  let ops := [NewBlock (Some (dec "pkg")) (Some (dec "1.0-1")) (Some (dec "unstable stable")) (Some (dec "low"))
+                       (Some (dec " (a comment)")) (Some [dec ""; dec "  * first"; dec ""])
+                       (Some (dec "A B <a@b.c>")) (Some (dec "Mon, 01 Jan 2001 00:00:00 +0000"))
+                       (Some [(dec "x-y", dec "1"); (dec "Binary-Only", dec "yes")]);
+              AddChange (dec "  * second"); SetAttr AVersion (dec "1:1.0-2")] in
+  forallb op_dom ops = true
+  /\ match apply_ops empty_changelog ops with
+     | Ok c => match format_changelog false c with
+               | Ok t => match parse_changelog no_junk false false None (InStr t) with
+                         | Ok st' => cl_of st' = c /\ p_warn st' = []
+                                     /\ map b_changes (cl_blocks c) = [[dec ""; dec "  * first"; dec "  * second"; dec ""]]
+                         | Err _ => False
+                         end
+               | Err _ => False
+               end
+     | Err _ => False
+     end.
+Proof. vm_compute. repeat split. Qed.
+
 Print Assumptions C15_lenient_total.
 Print Assumptions C15_strict_iff_warning.
 Print Assumptions C15_strict_raises_iff_lenient_warns.
+Print Assumptions C15_format_normal_form_parsed.
+Print Assumptions C15_format_normal_form_built.
+Print Assumptions C15_format_normal_form_partial.
